@@ -108,6 +108,10 @@ def cases(tier, seed, shard, nshards):
                     if idx % nshards == shard:
                         yield {"kind": "apply", "n": n, "npos": npos, "susp": idx % 2, "fail": fail, "exc": exc}
             # awaitables that compare equal to each other (hashable or unhashable): each one is awaited all the same
+            for result in ("awaitable", "coroutine"):
+                idx += 1
+                if idx % nshards == shard:
+                    yield {"kind": "apply", "n": n, "npos": npos, "susp": idx % 2, "fail": None, "result": result}
             for kind in ("equal_hashable", "equal_unhashable"):
                 idx += 1
                 if idx % nshards == shard:
@@ -513,17 +517,54 @@ def run_apply(case, stats):
     kw = {f"k{i}": coros[i] for i in range(npos, n)}
     seen = {}
 
-    def func(*args, **kwargs):
+    class ResultAwaitable:
+        """What the function returns in the "awaitable result" variant: apply hands it back, it does not await it."""
+
+        awaited = 0
+
+        def __await__(self):
+            ResultAwaitable.awaited += 1
+            return iter(())
+
+    returned = {}
+
+    def plain_func(*args, **kwargs):
         seen["args"], seen["kwargs"] = args, kwargs
         if case["fail"] == "func":
             raise boom
+        if case.get("result") == "awaitable":
+            returned["obj"] = ResultAwaitable()
+            return returned["obj"]
         return ("result", args, tuple(sorted(kwargs.items())))
+
+    async def async_func(*args, **kwargs):
+        return plain_func(*args, **kwargs)
+
+    def func(*args, **kwargs):
+        if case.get("result") == "coroutine":
+            returned["obj"] = async_func(*args, **kwargs)
+            return returned["obj"]
+        return plain_func(*args, **kwargs)
 
     try:
         res = ("ok", drive(A.apply(func, *pos, **kw)))
     except BaseException as exc:  # noqa: BLE001
         res = ("raise", exc)
     viols = []
+    if case.get("result") and case["fail"] is None:
+        # "returns the function's result": the very object, not what awaiting it would give
+        obj = returned.get("obj")
+        if res[0] != "ok" or res[1] is not obj or ResultAwaitable.awaited:
+            viols.append({"key": "apply/function-result-awaited",
+                          "msg": f"apply {case}: the function returned {obj!r}; apply gave {res!r} "
+                                 f"(result awaited {ResultAwaitable.awaited}x)"})
+        if hasattr(obj, "close"):
+            obj.close()
+        for c in coros:
+            if hasattr(c, "close"):
+                c.close()
+        stats["apply_runs"] += 1
+        return {"violations": viols, "nontrivial": True, "sig": tuple(sorted(case.items(), key=str))}
     if case["fail"] is None:
         want_args = tuple(vals[:npos])
         want_kwargs = {f"k{i}": vals[i] for i in range(npos, n)}
